@@ -35,6 +35,7 @@ fn dispatch(req: &Req) -> R<String> {
 		"std" => distr::std(req),
 		"enum" => enumr::enumerate(req),
 		"stat" => stat::stat(req),
+		"statd" => stat::statd(req),
 		"chacha" => chacha::chacha(req),
 		"slpblock" => chacha::slpblock(req),
 		"serde" => serde_rt::serde(req),
